@@ -1,0 +1,16 @@
+//go:build verif
+
+package floodsub
+
+// VerifQueued returns the number of packets waiting in the per-peer send
+// queues. Only built with the "verif" tag; used by the verification harness to
+// detect quiescence under back-pressure.
+func (m *FloodSub) VerifQueued() int {
+	n := 0
+	m.mtx.Lock()
+	for _, sh := range m.peers {
+		n += len(sh.packetCh)
+	}
+	m.mtx.Unlock()
+	return n
+}
